@@ -357,7 +357,7 @@ def qm_scenario(kind):
     s.vars["units"] = u
     ip.assume(z3.And(u >= 1, u <= 64))
     tune, layer_indexes = "none", None
-    if kind in ("dense", "indexes", "filters"):
+    if kind in ("dense", "indexes", "indexes_b", "filters"):
       layers = [_mk_layer("InputLayer", "in0"),
                 _mk_layer("Dense", "dense_a", use_bias=True, activation="relu", units=SNum(u), wshape=(7, 5)),
                 _mk_layer("Activation", "act_1", activation="relu"),
@@ -369,6 +369,10 @@ def qm_scenario(kind):
       limit = {"Dense": [4, 8, 6], "Conv2D": [8, 8, 6], "Activation": [6], "BatchNormalization": []}
       if kind == "indexes":
         layer_indexes = [1, 2, 5]
+      if kind == "indexes_b":
+        # the standalone Activation (2) and the class-limited BatchNormalization (5) are NOT selected: the branches of
+        # quantize_model that never consult the kernel-quantizer dictionary must honour layer_indexes too (seed c20-6)
+        layer_indexes = [1, 3, 6]
       if kind == "filters":
         tune = "layer"
         limit = {"Dense": [1, 4, 1], "Conv2D": [1, 4, 1], "Activation": [1]}   # single admissible quantizers: only the filter choices fork
@@ -492,7 +496,7 @@ def qm_scenario(kind):
       s.claim("filters_scaled", z3.And(*goals))
     else:
       same = [Q.num_value(layers[1].attrs["units"]) == z3.ToReal(u), Q.num_value(layers[3].attrs["filters"]) == z3.ToReal(u)] \
-          if kind in ("dense", "indexes") else []
+          if kind in ("dense", "indexes", "indexes_b") else []
       s.claim("architecture_kept", z3.And(*same) if same else True)
       s.claim("no_filter_choice", not any(c_[1].startswith("network_filters") for c_ in hp.calls))
     return s
@@ -572,7 +576,7 @@ def cases(tier):
     for head in ("kernel_quantizer", "bias_quantizer", "activation"):
       out.append(Case(PROP, AQ + "._get_quantizer", "%s_%s" % (lk, head), limit_scenario(lk, head), bounds=bounds,
                       replay_kind=None, assumptions=ASSUME))
-  for kind in ("dense", "indexes", "filters", "seq", "seq_class", "sep"):
+  for kind in ("dense", "indexes", "indexes_b", "filters", "seq", "seq_class", "sep"):
     out.append(Case(PROP, AQ + ".quantize_model", kind, qm_scenario(kind), bounds=bounds, replay_kind="c20_qm",
                     assumptions=ASSUME + ["clone_model returns a copy with the same layers (contract); model_quantize "
                                           "replaced by a spy (its own behaviour is property C12)"]))
